@@ -74,12 +74,11 @@ func splitAllow(h string) []string {
 }
 
 // rEcho builds an Echo with the table registered in the given order; *cur receives the observation.
-func rEcho(routes []rRoute, cur *rObs) *echo.Echo {
-	e := echo.New()
-	e.Logger.SetOutput(nopWriter{})
-	for i, r := range routes {
+// rAddRoutes registers routes[from:] on e; handler i records itself in cur.
+func rAddRoutes(e *echo.Echo, routes []rRoute, from int, cur *rObs) {
+	for i := from; i < len(routes); i++ {
 		i := i
-		e.Add(r.Method, r.Path, func(c echo.Context) error {
+		e.Add(routes[i].Method, routes[i].Path, func(c echo.Context) error {
 			cur.Kind = 'D'
 			cur.Hid = i
 			cur.PPath = c.Path()
@@ -88,6 +87,29 @@ func rEcho(routes []rRoute, cur *rObs) *echo.Echo {
 			return c.NoContent(http.StatusOK)
 		})
 	}
+}
+
+func rEcho(routes []rRoute, cur *rObs) *echo.Echo {
+	return rEchoWarm(routes, 0, nil, cur)
+}
+
+// rEchoWarm registers routes[:warm], serves the warm-up requests, then registers the rest: what was
+// answered before a registration must not influence what is answered after it.
+func rEchoWarm(routes []rRoute, warm int, warmReqs []rReq, cur *rObs) *echo.Echo {
+	e := echo.New()
+	e.Logger.SetOutput(nopWriter{})
+	if warm <= 0 || warm > len(routes) {
+		warm = len(routes)
+		warmReqs = nil
+	}
+	defer func() {
+		rAddRoutes(e, routes[:warm], 0, cur)
+		for _, q := range warmReqs {
+			rServe(e, cur, q)
+		}
+		rAddRoutes(e, routes, warm, cur)
+		*cur = rObs{}
+	}()
 	e.Use(func(next echo.HandlerFunc) echo.HandlerFunc {
 		return func(c echo.Context) error {
 			err := next(c)
